@@ -2,6 +2,7 @@ package main
 
 import (
 	"fmt"
+	"os"
 	"runtime/debug"
 	"sort"
 	"strings"
@@ -30,6 +31,15 @@ func (e *Exec) setModel(m Model) {
 
 // checkSatModel checks PC ∧ extra and returns the model when sat.
 func (e *Exec) checkSatModel(extra *Term) (SatResult, Model) {
+	if e.tt.HasFP(extra) && extra.id > 0 && e.fpHard(extra) {
+		// floating-point conversions/arithmetic: z3's incremental core is orders of magnitude slower
+		// than its bit-blasting tactics; solve non-incrementally right away.
+		r, m := e.S.CheckOneShot(extra, e.pathAll, e.oneShotMs)
+		if r == Sat && len(m) == 0 && len(e.pathAll) > 0 {
+			m = nil
+		}
+		return r, m
+	}
 	e.S.Push()
 	e.S.Assert(extra)
 	r := e.S.CheckSat()
@@ -38,6 +48,13 @@ func (e *Exec) checkSatModel(extra *Term) (SatResult, Model) {
 		m = e.S.GetModel(e.pathAll)
 	}
 	e.S.Pop(1)
+	if r == Unknown {
+		// the incremental core gave up within its short budget: solve from scratch, non-incrementally
+		r, m = e.S.CheckOneShot(extra, e.pathAll, e.oneShotMs)
+		if r == Sat && len(m) == 0 && len(e.pathAll) > 0 {
+			m = nil
+		}
+	}
 	return r, m
 }
 
@@ -360,6 +377,7 @@ type JobSpec struct {
 	TimeoutS float64
 	Solver   string
 	SolverTimeoutMs int
+	IncTimeoutMs int
 	InitPkgs []string
 	Samples  int
 }
@@ -386,15 +404,19 @@ func RunJob(P *Program, spec JobSpec, kf map[string]bool) *JobResult {
 	}
 	to := spec.SolverTimeoutMs
 	if to == 0 {
-		to = 20000
+		to = 60000
 	}
-	S, err := NewSolver(sname, tt, to)
+	inc := spec.IncTimeoutMs
+	if inc == 0 {
+		inc = 3000
+	}
+	S, err := NewSolver(sname, tt, inc)
 	if err != nil {
 		R.Err = "solver: " + err.Error()
 		return R
 	}
 	defer S.Close()
-	e := &Exec{P: P, tt: tt, S: S, R: R, params: spec.Params, kf: kf, initPkgs: map[string]bool{}}
+	e := &Exec{P: P, tt: tt, S: S, R: R, params: spec.Params, kf: kf, initPkgs: map[string]bool{}, oneShotMs: to}
 	for _, p := range spec.InitPkgs {
 		e.initPkgs[p] = true
 	}
@@ -430,6 +452,9 @@ func RunJob(P *Program, spec JobSpec, kf map[string]bool) *JobResult {
 		R.Steps += e.steps
 		if len(e.trail) > R.MaxTrail {
 			R.MaxTrail = len(e.trail)
+		}
+		if os.Getenv("GOSYM_DEBUG") != "" && end.reason != "ok" {
+			fmt.Fprintf(os.Stderr, "path %d end: %s: %s\n", R.Paths, end.reason, end.detail)
 		}
 		switch end.reason {
 		case "ok", "infeasible":
@@ -600,4 +625,29 @@ func sortedKeys(m map[string]int) []string {
 	}
 	sort.Strings(ks)
 	return ks
+}
+
+// fpHard: terms with int<->float conversions or FP arithmetic (not mere comparisons of FP variables).
+func (e *Exec) fpHard(t *Term) bool {
+	if e.hardMemo == nil {
+		e.hardMemo = map[*Term]bool{}
+	}
+	if v, ok := e.hardMemo[t]; ok {
+		return v
+	}
+	r := false
+	switch t.Op {
+	case "to_fp_s", "to_fp_u", "fp.to_sbv", "fp.to_ubv", "fp.add", "fp.sub", "fp.mul", "fp.div", "fp.sqrt", "fp.roundToIntegral", "fp.from_bits":
+		r = true
+	}
+	if !r {
+		for _, a := range t.Args {
+			if e.fpHard(a) {
+				r = true
+				break
+			}
+		}
+	}
+	e.hardMemo[t] = r
+	return r
 }
